@@ -688,6 +688,7 @@ func init() {
 		timeT := ex.P.Pkgs["time"].Type("Time").Type()
 		ex.nextObj++
 		c := &ChanObj{ID: ex.nextObj, Cap: 1, ET: timeT, Label: "timer.C"}
+		c.timerD, c.timerArm = a[0].(*Term), ex.clock()
 		if ex.lazyTimers {
 			ex.pendingTimers = append(ex.pendingTimers, c)
 		} else {
@@ -716,6 +717,7 @@ func init() {
 	m["(*time.Timer).Reset"] = func(ex *Exec, fr *frame, a []Value) Value {
 		t := ex.load(a[0].(*Ptr)).(*StructV)
 		if c, ok := t.F[0].(*Chan); ok && c.C != nil {
+			c.C.timerD, c.C.timerArm = a[1].(*Term), ex.clock()
 			if ex.lazyTimers {
 				was := ex.disarmTimer(c.C)
 				ex.pendingTimers = append(ex.pendingTimers, c.C)
